@@ -162,15 +162,18 @@ Print Assumptions C16_cookie_behind_header.
 
 (* ---- sessions ------------------------------------------------------------------------------------------- *)
 (* One live project, one caller's File object plus the objects held by the history: any sequence of read,
-   File.write, ChangeContents on the same or a fresh File object, undo, redo, close/reopen, and external rewrites
-   that keep codec / convention / declaration.  [session_inv]: the bytes on disk are a good text (CR-free, has a
-   line break, same declaration, encodable) in the file's codec and convention, every File object's newlines is
-   None or the file's convention, every history entry holds good texts.  With automatic_soa on or off. *)
+   File.write, ChangeContents on the same or a fresh File object, undo, redo, close/reopen, external rewrites.
+   [session_inv]: the bytes on disk are a text of the file (CR-free, same declaration, encodable) in the file's
+   codec and convention, every File object's newlines is None or the file's convention, every history entry holds
+   texts of the file.  Texts written need NOT contain a line break (since fe48e43).  The only dynamic condition
+   ([step_ok] / [obj_knows]): a File object that has never read the file - the caller's at the start, a fresh
+   one, the ones of a history reloaded after close/reopen - is only used while the file shows a line break;
+   external rewrites show one.  With automatic_soa on or off. *)
 Theorem C16_session_step :
   forall (lookup : text -> option codec) (soa : bool) (c : codec) (n : nl) (ck : option text),
     codec_ok c -> codec_declared lookup c ck ->
     forall (s : sess) (st : step),
-      session_inv c n ck s -> step_good c n ck st ->
+      session_inv c n ck s -> step_ok lookup c n ck s st ->
       session_inv c n ck (fst (run_step repaired lookup soa s st))
       /\ step_bytes c n s st (s_disk (fst (run_step repaired lookup soa s st))).
 Proof. exact session_step. Qed.
@@ -180,24 +183,58 @@ Theorem C16_session_preserves :
   forall (lookup : text -> option codec) (soa : bool) (c : codec) (n : nl) (ck : option text),
     codec_ok c -> codec_declared lookup c ck ->
     forall (steps : list step) (s : sess),
-      session_inv c n ck s -> Forall (step_good c n ck) steps ->
+      session_inv c n ck s -> steps_ok lookup c n ck soa s steps ->
       session_inv c n ck (run_steps repaired lookup soa s steps).
 Proof. exact session_preserves. Qed.
 Print Assumptions C16_session_preserves.
 
-(* a file inside the property, freshly opened, satisfies the invariant *)
 Theorem C16_session_initial :
   forall (c : codec) (n : nl) (ck : option text) (T : text) (d : list N),
-    good c n ck T -> file_of c n T = Some d -> session_inv c n ck (initial d).
+    ok_text c n ck T -> file_of c n T = Some d -> session_inv c n ck (initial d).
 Proof. exact initial_inv. Qed.
 Print Assumptions C16_session_initial.
 
+(* Static form for ONE File object without reopening (read, File.write, ChangeContents on that object, undo, redo,
+   external rewrites that show a line break): no condition on the state at all, and the texts written may lack
+   any line break - undo and redo restore the file's convention all the same.  [single] = session_inv + one File
+   object that has read the file or a file that shows its convention + all history entries through that object. *)
+Theorem C16_session_single_object :
+  forall (lookup : text -> option codec) (soa : bool) (c : codec) (n : nl) (ck : option text),
+    codec_ok c -> codec_declared lookup c ck ->
+    forall (steps : list step) (s : sess),
+      single lookup c n ck s -> Forall (step_single c n ck) steps ->
+      single lookup c n ck (run_steps repaired lookup soa s steps).
+Proof. exact single_preserves. Qed.
+Print Assumptions C16_session_single_object.
+
+Theorem C16_session_single_step :
+  forall (lookup : text -> option codec) (soa : bool) (c : codec) (n : nl) (ck : option text),
+    codec_ok c -> codec_declared lookup c ck ->
+    forall (s : sess) (st : step),
+      single lookup c n ck s -> step_single c n ck st ->
+      single lookup c n ck (fst (run_step repaired lookup soa s st)) /\ step_ok lookup c n ck s st.
+Proof. exact single_step_full. Qed.
+Print Assumptions C16_session_single_step.
+
+Theorem C16_session_single_initial :
+  forall (lookup : text -> option codec) (c : codec) (n : nl) (ck : option text),
+    codec_ok c -> codec_declared lookup c ck ->
+    forall (T : text) (d : list N), good c n ck T -> file_of c n T = Some d -> single lookup c n ck (initial d).
+Proof. exact initial_single. Qed.
+Print Assumptions C16_session_single_initial.
+
+Example C16_ex_single_hyps :
+  codec_declared std_lookup latin1 ex_ck
+  /\ good latin1 NlCRLF ex_ck ex_text /\ file_of latin1 NlCRLF ex_text = Some ex_text_raw
+  /\ Forall (step_single latin1 NlCRLF ex_ck) ex_single_steps
+  /\ has_lf ex_cookie_line = false
+  /\ s_disk (run_steps repaired std_lookup true (initial ex_text_raw) ex_single_steps) = ex_text_raw.
+Proof. exact ex_single_hyps. Qed.
+Print Assumptions C16_ex_single_hyps.
+
 Example C16_ex_session_hyps :
-  codec_declared std_lookup latin1 (Some latin_1_name)
-  /\ good latin1 NlCRLF (Some latin_1_name) ex_text
-  /\ file_of latin1 NlCRLF ex_text = Some ex_text_raw
-  /\ Forall (step_good latin1 NlCRLF (Some latin_1_name)) ex_session_steps
-  /\ s_disk (run_steps repaired std_lookup true (initial ex_text_raw) ex_session_steps) = ex_text_raw ++ [13; 10].
+  ok_text latin1 NlCRLF ex_ck ex_text /\ file_of latin1 NlCRLF ex_text = Some ex_text_raw
+  /\ steps_ok std_lookup latin1 NlCRLF ex_ck true (initial ex_text_raw) ex_session_steps.
 Proof. exact ex_session_hyps. Qed.
 Print Assumptions C16_ex_session_hyps.
 
@@ -302,14 +339,35 @@ Example C16_cr_only_declaration_fixed :
 Proof. exact cr_only_declaration_fixed. Qed.
 Print Assumptions C16_cr_only_declaration_fixed.
 
-(* OPEN FINDING C16-oneline-resets-newlines (code in /repo now): Python file, automatic_soa on: an edit that leaves
-   the CRLF file without line break, then undo: the bytes are not restored (LF line ends); with the observer off
-   they are.  The text written has no line break: exactly what [good] excludes in C16_session_preserves. *)
+(* FIXED (fe48e43) C16-oneline-resets-newlines: Python file, automatic_soa on: an edit leaves the CRLF file without
+   line break, then undo: BEFORE fe48e43 the bytes were not restored (LF line ends), also without the observer when
+   the one-line file was read through the same object; the code in /repo now restores them *)
 Theorem C16_oneline_resets_newlines_refuted :
   exists b t,
     consistentb NlCRLF b = true /\ has_lf t = false
-    /\ s_disk (run_steps repaired std_lookup true (initial b) [SWrite t; SUndo]) <> b
-    /\ has_cr (s_disk (run_steps repaired std_lookup true (initial b) [SWrite t; SUndo])) = false
-    /\ s_disk (run_steps repaired std_lookup false (initial b) [SWrite t; SUndo]) = b.
+    /\ s_disk (run_steps before_fe48e43 std_lookup true (initial b) [SWrite t; SUndo]) <> b
+    /\ has_cr (s_disk (run_steps before_fe48e43 std_lookup true (initial b) [SWrite t; SUndo])) = false
+    /\ s_disk (run_steps before_fe48e43 std_lookup false (initial b) [SDoSame t; SRead; SUndo]) <> b.
 Proof. exact oneline_resets_newlines_refuted. Qed.
 Print Assumptions C16_oneline_resets_newlines_refuted.
+
+Example C16_oneline_resets_newlines_fixed :
+  s_disk (run_steps repaired std_lookup true (initial oneline_file) [SWrite oneline_text; SUndo]) = oneline_file
+  /\ s_disk (run_steps repaired std_lookup false (initial oneline_file) [SDoSame oneline_text; SRead; SUndo]) = oneline_file
+  /\ s_disk (run_steps repaired std_lookup true (initial oneline_file) [SWrite oneline_text; SUndo; SRedo; SWrite [97; 10; 98; 10]])
+     = [97; 13; 10; 98; 13; 10].
+Proof. exact oneline_resets_newlines_fixed. Qed.
+Print Assumptions C16_oneline_resets_newlines_fixed.
+
+(* OPEN FINDING C16-oneline-reopen-loses-newlines (code in /repo now): the same edit, then close/reopen, then undo:
+   the reloaded change has a fresh File object, write_file detects the convention from the one-line file, the old
+   text comes back with LF line ends; within one session (last conjunct) it is restored.  This is the use of a
+   never-read File object on a file without line break that [obj_knows] excludes in C16_session_step. *)
+Theorem C16_oneline_reopen_refuted :
+  exists b t,
+    consistentb NlCRLF b = true /\ has_lf t = false
+    /\ s_disk (run_steps repaired std_lookup true (initial b) [SWrite t; SReopen; SUndo]) <> b
+    /\ has_cr (s_disk (run_steps repaired std_lookup false (initial b) [SWrite t; SReopen; SUndo])) = false
+    /\ s_disk (run_steps repaired std_lookup true (initial b) [SWrite t; SUndo]) = b.
+Proof. exact oneline_reopen_refuted. Qed.
+Print Assumptions C16_oneline_reopen_refuted.
